@@ -280,9 +280,6 @@ fn inflate_bytes(data: &[u8]) -> Result<Vec<u8>> {
 
 pub fn flate_decode(data: &[u8], params: &LZWFlateParams) -> Result<Vec<u8>> {
 
-    let predictor = params.predictor as usize;
-
-
     // First flate decode
     let decoded = {
         if let Ok(data) = inflate_bytes_zlib(data) {
@@ -294,22 +291,33 @@ pub fn flate_decode(data: &[u8], params: &LZWFlateParams) -> Result<Vec<u8>> {
             bail!("can't inflate");
         }
     };
-    // Then unfilter (PNG)
-    // For this, take the old out as input, and write output to out
+    undo_predictor(decoded, params)
+}
+
+/// Undoes the /Predictor of LZWDecode and FlateDecode parameters (ISO 32000-1 7.4.4.4) on decoded data.
+fn undo_predictor(decoded: Vec<u8>, params: &LZWFlateParams) -> Result<Vec<u8>> {
+    let predictor = params.predictor as usize;
+    // 1 = no prediction; 2 (TIFF) and the undefined 3..=9 are left alone as before
+    if predictor < 10 {
+        return Ok(decoded);
+    }
+    // the row geometry comes from the file: reject what cannot describe a row of the decoded data.
+    // a sample has /BitsPerComponent bits; rows are padded to a whole number of bytes
+    let n_components = usize::try_from(params.n_components).ok().filter(|&n| n > 0);
+    let columns = usize::try_from(params.columns).ok().filter(|&n| n > 0);
+    let bits = usize::try_from(params.bits_per_component).ok().filter(|&n| matches!(n, 1 | 2 | 4 | 8 | 16));
+    let row_bits = match (columns, n_components, bits) {
+        (Some(columns), Some(n_components), Some(bits)) => columns.checked_mul(n_components).and_then(|n| n.checked_mul(bits)),
+        _ => None
+    };
+    let (stride, bpp) = match (row_bits, n_components, bits) {
+        // bytes per row, and bytes per complete pixel (at least one)
+        (Some(row_bits), Some(n_components), Some(bits)) if row_bits < usize::MAX - 8 => ((row_bits + 7) / 8, (n_components * bits + 7) / 8),
+        _ => bail!("invalid predictor geometry: {} columns, {} components, {} bits", params.columns, params.n_components, params.bits_per_component)
+    };
 
     // 10..=15 are the PNG predictors; 10 (None on every row) still has a tag byte per row
     if predictor >= 10 {
-        // the row geometry comes from the file: reject what cannot describe a row of the decoded data
-        let n_components = usize::try_from(params.n_components).ok().filter(|&n| n > 0);
-        let columns = usize::try_from(params.columns).ok().filter(|&n| n > 0);
-        let stride = match (columns, n_components) {
-            (Some(columns), Some(n_components)) => columns.checked_mul(n_components),
-            _ => None
-        };
-        let (stride, n_components) = match (stride, n_components) {
-            (Some(stride), Some(n_components)) if stride < usize::MAX => (stride, n_components),
-            _ => bail!("invalid predictor geometry: {} columns, {} components", params.columns, params.n_components)
-        };
         let inp = decoded; // input buffer
         let rows = inp.len() / (stride+1);
         if rows == 0 {
@@ -338,7 +346,7 @@ pub fn flate_decode(data: &[u8], params: &LZWFlateParams) -> Result<Vec<u8>> {
                 let (prev, curr) = out.split_at_mut(out_off);
                 (&prev[last_out_off ..], &mut curr[.. stride])
             };
-            unfilter(predictor, n_components, prev_row, row_in, row_out);
+            unfilter(predictor, bpp, prev_row, row_in, row_out);
             
             last_out_off = out_off;
             
@@ -378,7 +386,7 @@ pub fn lzw_decode(data: &[u8], params: &LZWFlateParams) -> Result<Vec<u8>> {
     decoder
         .into_stream(&mut out)
         .decode_all(data).status?;
-    Ok(out)
+    undo_predictor(out, params)
 }
 fn lzw_encode(data: &[u8], params: &LZWFlateParams) -> Result<Vec<u8>> {
     use weezl::{BitOrder, encode::Encoder};
